@@ -14,7 +14,7 @@ from simverif.core.rng import stream
 
 ID = 'C09'
 LEVEL = 'exploration'
-TIERS = {'quick': {'runs': 4000}, 'thorough': {'seconds': 600}}
+TIERS = {'quick': {'runs': 2500}, 'thorough': {'seconds': 600}}
 DET_PAIRS_PER_SLOT = 3
 RULE = ("one run = one seeded multi-stage chain history served by an independent reference hub to a real "
         "Ledger+sqlite+HD account: 2..6 stages of 1..5 transactions (plain / claim / update / support / "
@@ -23,7 +23,9 @@ RULE = ("one run = one seeded multi-stage chain history served by an independent
         "third-party outputs of earlier wallet transactions, legacy and segwit encodings, third-party outputs of "
         "template (family standard/faulty) or non-template (family exotic) script kinds), optional blocks "
         "confirming a seeded ancestor-closed part of the mempool, optional bursts up to the 100-per-address "
-        "limit; after each stage the hub notifies every subscribed address whose status changed, in seeded "
+        "limit, optional ladders of payments climbing through the gap window within one stage; the wallet starts "
+        "before the first stage or is restored against the already populated hub (then the initial sync is "
+        "judged on its own); after each stage the hub notifies every subscribed address whose status changed, in seeded "
         "order with seeded delays, sometimes preceded by a superseded status, sometimes twice, stages may "
         "overlap; RPC latencies, sqlite completion delays and (family faulty) transient TimeoutError / "
         "ConnectionError on the retried calls are drawn per call site. Oracle at every quiescence point. "
@@ -60,7 +62,8 @@ EXPECTED_PROBES = ['notification_overtook_batch_fetch', 'duplicate_notification'
                    'third_party_exotic', 'third_party_standard', 'unconfirmed_parent', 'multi_address_tx',
                    'spend_to_same_address', 'mixed_foreign_inputs', 'spend_third_party_output', 'stage_overlap',
                    'initial_sync_with_history', 'funded_at_gap_edge', 'history_reordered', 'oracle_checked',
-                   'burst_to_limit']
+                   'burst_to_limit', 'used_at_subscribe_time', 'cascade_discovery_at_subscribe', 'restore_checked',
+                   'ladder', 'verified_spend_known_before_funding']
 MAX_BUDGET_FRACTION = 0.02
 
 QUIESCE_BOUND = 600.0     # virtual seconds allowed between the last notification and quiescence
@@ -148,6 +151,18 @@ def gen(run_seed, tier):
     for s in range(n_stages):
         if s == start_stage:
             ops.append({'op': 'start', 'n': n}); n += 1
+            if s > 0 and r.random() < 0.6:
+                # restore from seed against a pre-populated hub: judge the initial sync on its own, before any
+                # pushed notification can re-establish the gap
+                ops.append({'op': 'stage', 'n': n, 'wait': True, 'spread': 0.0, 'dup': 0.0, 'stale': 0.0,
+                            'restore': True}); n += 1
+        if r.random() < 0.15:
+            # several payments of one stage climbing through the gap window (#i, #i+<=gap, ...): discovery has
+            # to cascade through freshly generated addresses that are already used when first subscribed
+            ops.append({'op': 'ladder', 'n': n, 'chain': 0 if r.random() < 0.7 else 1,
+                        'steps': [r.choice([1.0, 1.0, 0.6, round(r.random(), 3)]) for _ in range(r.choice([2, 3, 4]))],
+                        'amt': r.choice([1000, 2 * 10 ** 8])}); n += 1
+            first = False
         if r.random() < 0.06:
             ops.append({'op': 'burst', 'n': n, 'chain': r.choice([0, 1]), 'idx': _idx(r),
                         'count': r.choice([30, 60, 99, 100, 120]) if big or r.random() < 0.3 else r.choice([8, 20]),
@@ -165,7 +180,7 @@ def gen(run_seed, tier):
                         'hdr': r.choice([None, 0.0, 0.0, 0.5, 5.0])}); n += 1
         last = s == n_stages - 1
         ops.append({'op': 'stage', 'n': n, 'wait': True if last else r.random() < 0.65,
-                    'spread': r.choice([0.0, 0.01, 0.2, 2.0]), 'dup': dup, 'stale': stale}); n += 1
+                    'spread': r.choice([0.0, 0.01, 0.2, 2.0, 8.0]), 'dup': dup, 'stale': stale}); n += 1
         if not ops[-1]['wait'] and r.random() < 0.6:
             ops.append({'op': 'pause', 'n': n, 'dt': r.choice([0.001, 0.02, 0.3, 3.0])}); n += 1
     if family == 'exotic':
@@ -412,6 +427,29 @@ def do_burst(W, run, op):
     run.ev('burst', op['n'], (chain, idx), made)
 
 
+def do_ladder(W, run, op):
+    """Payments climbing through the gap window of one chain: each goes to an index in
+    (last used, last used + gap] of the chain state left by the previous one."""
+    from simverif.core import hub as H
+    hub = W.hub
+    rng = run.rng('ladder', op['n'])
+    chain = 1 if op.get('chain') else 0
+    gap = W.gaps[chain]
+    made = []
+    for f in op.get('steps', [1.0]):
+        last = hub.last_used(chain)
+        idx = last + max(1, min(gap, int(round(float(f) * gap))))
+        address = W.address(chain, idx)
+        ins = [H.TxIn(rng.getrandbits(256).to_bytes(32, 'big').hex(), 0, H.push(b'\x30' * 71) + H.push(b'\x02' * 33))]
+        outs = [H.TxOut(int(op.get('amt', 1000)), H.p2pkh(H.address_to_h160(address)), address, 'plain')]
+        if hub.add_tx(ins, outs) is not None:
+            made.append(idx)
+            run.probes['wallet_tx'] += 1
+    if len(made) > 1:
+        run.probes['ladder'] += 1
+    run.ev('ladder', op['n'], chain, made)
+
+
 def do_block(W, run, op):
     hub = W.hub
     rng = run.rng('block', op['n'])
@@ -462,10 +500,35 @@ def install_probes(W, run):
     ledger._sync = observed_sync
 
     seen_heights = {}
+    fetched_nonempty = set()
     orig_handle = W.hub.handle
 
     def observed_handle(method, args):
         res = orig_handle(method, args)
+        hub = W.hub
+        if method == 'blockchain.address.subscribe':
+            for a, status in zip(args, res):
+                if status is not None and a in hub.wallet_addrs:
+                    run.probes['used_at_subscribe_time'] += 1
+                    chain, idx = hub.wallet_addrs[a]
+                    if idx >= W.gaps[chain]:
+                        run.probes['cascade_discovery_at_subscribe'] += 1
+        if method == 'blockchain.address.get_history' and res and args[0] not in fetched_nonempty:
+            fetched_nonempty.add(args[0])
+            # first non-empty history fetched for X: does it hold a funding tx and the tx spending it while the
+            # wallet already stores the spending tx as verified (learned through another address) but not the
+            # funding tx?  (the schedule a ledger-wide verified-tx cache must survive)
+            x = args[0]
+            in_hist = {e['tx_hash'] for e in res}
+            for e in res:
+                tx = hub.txs[e['tx_hash']]
+                for i in tx.ins:
+                    o = hub.wouts.get((i.prev_txid, i.prev_n))
+                    if o is not None and o.address == x and i.prev_txid in in_hist:
+                        rows = dict((r[0], r[1]) for r in W.sql(
+                            "select txid, is_verified from tx where txid in (?, ?)", (tx.txid, i.prev_txid)))
+                        if rows.get(tx.txid) and i.prev_txid not in rows:
+                            run.probes['verified_spend_known_before_funding'] += 1
         if method == 'blockchain.address.get_history':
             prev = seen_heights.setdefault(args[0], {})
             order_prev = [t for t in prev.get('__order__', [])]
@@ -628,6 +691,8 @@ def execute(scenario, keep_trace=False):
                 build_tx(W, run, op)
             elif kind == 'burst':
                 do_burst(W, run, op)
+            elif kind == 'ladder':
+                do_ladder(W, run, op)
             elif kind == 'block':
                 do_block(W, run, op)
             elif kind == 'pause':
@@ -635,6 +700,8 @@ def execute(scenario, keep_trace=False):
             elif kind == 'stage':
                 do_stage_notifications(W, run, op, sent_statuses)
                 if op.get('wait', True):
+                    if op.get('restore') and state['started']:
+                        run.probes['restore_checked'] += 1
                     if not await settle(f"stage op {op['n']}"):
                         return
                 else:
